@@ -17,7 +17,12 @@ func TestVerifC10Grid(t *testing.T) {
 		if desc != "" {
 			st.Class("with-" + desc)
 		}
-		vfGridRun(rt, st, "C10", vfGridOpts{CCfgMod: mod, Note: desc})
+		smod, sdesc := vfGenSrvKnobs(rt, "srvcfg")
+		if sdesc != "" {
+			st.Class("with-" + sdesc)
+			desc += " " + sdesc
+		}
+		vfGridRun(rt, st, "C10", vfGridOpts{CCfgMod: mod, SCfgMod: smod, Note: desc})
 	})
 }
 
